@@ -20,6 +20,7 @@ func checkC18(cx *Ctx, r *Report) {
 	w, fx := cx.W, cx.Fx
 	r.Clauses = []string{
 		"an unrecognised encoding identifier is an error, never a pass-through: InflateAndDecode returns data only under encoding == \"\" or == DEFLATE",
+		"inflated data is returned complete or not at all: what is read through the size limiter is compared with the bound the limiter was given, and the over-long case is an error (no silent truncation)",
 		"messages are typed trees only: everything handed to the XML encoder in handler-reachable code is one of the module's wire structs; no reply is assembled by string formatting; no wire struct implements a custom XML/text marshaller; no field tagged innerxml / comment / cdata of a wire struct is ever written by module code",
 		"the encode tables of the emitted types equal the schema table (the same struct decodes and encodes, so what the library writes it reads back under the same names)",
 		"encoder close order in DeflateAndBase64: on every success path the flate writer is closed before the base64 encoder and both before the buffer is read; every error edge returns; the result does not alias a pooled buffer",
@@ -27,8 +28,13 @@ func checkC18(cx *Ctx, r *Report) {
 	r.NotDec = []string{"round-trip identity for all strings and replacement of illegal characters (encoding/xml, compress/flate: run-time values)", "agreement with third-party XML parsers"}
 	r.Assume = []string{"encoding/xml escapes character data and attribute values of string fields"}
 	cx.checkInflateCases(r, "R-GUARD")
+	// inflated data is handed on complete or not at all: the limiter's bound and the over-long test agree
+	if cx.checkDecompressors(r) == 0 {
+		r.Fail("R-BOUND", "#decompressors", "", "no decompressing reader found in the module")
+	}
 
 	scope := cx.handlerScope()
+	cx.checkFieldFidelity(r, scope)
 	// --- what reaches the encoder --------------------------------------------------------------------
 	isWire := func(t types.Type) bool {
 		n := namedOf(t)
@@ -201,4 +207,69 @@ func checkC18(cx *Ctx, r *Report) {
 	cx.checkErrPropagation(r, "R-ERR", "xml.DeflateAndBase64", df)
 	cx.checkPoolEscape(r)
 	r.Min("R-TAG", 100)
+}
+
+// textAltering: library calls whose result is an edited copy of their string operand. A value that passes through
+// one of them on its way into a field of an emitted message no longer decodes to what the caller supplied.
+func textAltering(l string) bool {
+	l = strings.TrimPrefix(strings.TrimPrefix(l, "via:"), "ext:")
+	for _, p := range []string{"strings.Map", "strings.Replace", "strings.ReplaceAll", "strings.Trim", "strings.TrimSpace", "strings.TrimLeft", "strings.TrimRight", "strings.TrimPrefix", "strings.TrimSuffix",
+		"strings.TrimFunc", "strings.ToLower", "strings.ToUpper", "strings.ToValidUTF8", "strings.Title", "strings.Fields", "strings.Split", "strings.SplitN", "strings.Join", "strings.Repeat",
+		"(*strings.Replacer).Replace", "(*regexp.Regexp).Replace", "html.EscapeString", "html.UnescapeString", "url.QueryEscape", "url.QueryUnescape", "url.PathEscape", "url.PathUnescape",
+		"bytes.Map", "bytes.Replace", "bytes.ReplaceAll", "bytes.Trim", "bytes.ToValidUTF8", "unicode.", "norm.", "strconv.Quote", "template.HTMLEscapeString", "template.JSEscapeString", "xml.EscapeText"} {
+		if strings.HasPrefix(l, p) {
+			return true
+		}
+	}
+	return false
+}
+
+// freeTextFields: fields of emitted messages that carry text supplied by the caller of the constructor (a request's
+// ID, an error text, user attributes, the audience) - as opposed to URLs and identifiers the IdP composes itself,
+// whose construction legitimately trims and joins path segments.
+var freeTextFields = map[string]bool{
+	"samlp.StatusType.StatusMessage": true, "samlp.StatusCodeType.Value": true, "samlp.ResponseType.InResponseTo": true, "samlp.LogoutResponseType.InResponseTo": true,
+	"saml.SubjectConfirmationDataType.InResponseTo": true, "saml.AttributeType.AttributeValue": true, "saml.AttributeType.Name": true, "saml.AttributeType.FriendlyName": true,
+	"saml.AttributeType.NameFormat": true, "saml.AudienceRestrictionType.Audience": true, "saml.NameIDType.Format": true,
+}
+
+// checkFieldFidelity (R-VFG): text stored, in handler-reachable code, into the free-text fields of the emitted
+// message types is not edited on the way (trimmed, mapped, replaced, case-folded, escaped by hand).
+func (cx *Ctx) checkFieldFidelity(r *Report, scope map[*ssa.Function]bool) {
+	w := cx.W
+	emitted := map[string]bool{}
+	for _, t := range emittedTypes {
+		emitted[t] = true
+	}
+	vf := cx.newVFlowFns(scope)
+	n := 0
+	for _, fn := range w.sortedFuncs(scope) {
+		for _, st := range cx.Fx.info(fn).stores {
+			fa, ok := st.Addr.(*ssa.FieldAddr)
+			if !ok || !emitted[fieldOwner(fa.X.Type())] {
+				continue
+			}
+			fv := fieldVar(fa.X.Type(), fa.Field)
+			if !freeTextFields[fieldOwner(fa.X.Type())+"."+fv.Name()] {
+				continue
+			}
+			if !isStringType(fv.Type()) {
+				if sl, isSl := fv.Type().Underlying().(*types.Slice); !isSl || !isStringType(sl.Elem()) {
+					continue
+				}
+			}
+			n++
+			key := fieldOwner(fa.X.Type()) + "." + fv.Name() + "@" + w.FuncKey(fn)
+			bad := ""
+			for l := range vf.Deep(vf.Labels(st.Val)) {
+				if textAltering(l) {
+					bad = strings.TrimPrefix(strings.TrimPrefix(l, "via:"), "ext:")
+				}
+			}
+			if bad != "" {
+				r.Fail("R-VFG", "fidelity:"+key, w.InstrPos(st), "the value stored into "+fieldOwner(fa.X.Type())+"."+fv.Name()+" passes through "+bad+": the field no longer decodes to the value that was put in")
+			}
+		}
+	}
+	r.Check(n >= 8, "R-VFG", "fidelity:#stores", "", fmt.Sprintf("%d stores of string values into fields of emitted message types examined: none is edited on the way", n), fmt.Sprintf("only %d stores into fields of emitted message types found", n))
 }
